@@ -155,3 +155,21 @@ def parse_rejects(out):
                 exp = {"class": "see-spec"}
             bad.append((int(m.group(1)), exp))
     return bad
+
+
+def merge_cov(a, b, tag):
+    """combine the coverage of two engine runs of one check (counts add up, samples concatenate)"""
+    out = dict(a)
+    for k, v in b.items():
+        if isinstance(v, bool):
+            out[k] = out.get(k, True) and v
+        elif isinstance(v, int) and isinstance(out.get(k), int):
+            out[k] = out[k] + v
+        elif k == "samples":
+            out[k] = out.get(k, []) + v
+        elif k == "impl_classes":
+            out[k] = {c: out.get(k, {}).get(c, 0) + v.get(c, 0) for c in set(out.get(k, {})) | set(v)}
+        elif k not in out:
+            out[k] = v
+    out[tag + "_states"] = b.get("states", 0)
+    return out
